@@ -90,6 +90,8 @@ class FuncAnalysis:
                 self.unsupported = str(e)
                 return self
             for status, path in res:
+                if status.startswith("cut:"):
+                    self.stats["cut_paths"] = self.stats.get("cut_paths", 0) + 1
                 r = PathRes(status, path, case)
                 if r.ok:
                     r.outcome = self.decode_outcome(eng, path)
